@@ -1033,9 +1033,73 @@ def accept_race_script(seed, idx, fam="sockpeer"):
     return script(f"{fam}/{idx}", seed * 97 + idx, socks, st, net={"latency_us": 1000},
                   info={"family": fam, "variant": "accept_race", "limit": limit, "backlog": backlog_from_source()}, mute=["poll"])
 
+def accept_vs_syn_script(seed, idx, fam="sockpeer"):
+    """Connection requests wait in the backlog (no accept call); then an accept call is registered and a NEW request
+    arrives before the dispatcher task runs again (`together`: both are ready in one poll of its select!, which serves
+    either first).  The waiting requests go first: the accept call gets the oldest one."""
+    rng = random.Random(seed * 1000003 + idx * 71 + 47)
+    nold = rng.choice([1, 1, 2, 3])
+    cid = rng.choice([300, 65531, 2 * rng.randrange(50, 30000)])
+    st = []
+    for j in range(nold):
+        st += [peer("syn", cid=(cid + 2 * j) % 65536, seq=2000 + j, to="A"), sleep(rng.choice([1010, 3000]))]
+    st += [{"op": "net_set", "from": "P", "to": "A", "latency_us": 0}]
+    order = rng.random() < 0.5
+    late = peer("syn", cid=(cid + 100) % 65536, seq=3000, to="A")
+    acc = {"op": "accept", "sock": "A", "ep": "x0"}
+    st += [{"op": "together"}] + ([acc, late] if order else [late, acc])
+    st += [{"op": "wait", "what": "accept", "timeout_us": 1 * SEC}, sleep(2000)]
+    for j in range(nold):
+        st += [{"op": "accept", "sock": "A", "ep": f"x{j + 1}"}, {"op": "wait", "what": "accept", "timeout_us": 1 * SEC}]
+    for j in range(nold + 1):
+        st += [{"op": "abandon", "ep": f"x{j}"}, {"op": "drop", "ep": f"x{j}"}]
+    st.append(sleep(20 * SEC))
+    socks = [sock("A", A_ADDR, rand=[500, 100, 200, 300, 400, 600], link_mtu=576, max_retx=2, inactivity_ms=3000),
+             sock("P", P_ADDR, raw=True)]
+    return script(f"{fam}/{idx}", seed * 101 + idx, socks, st, net={"latency_us": 1000},
+                  info={"family": fam, "variant": "accept_vs_syn", "nold": nold, "backlog": backlog_from_source()}, mute=["poll"])
+
+def id_walk_script(seed, idx, fam="sockpeer"):
+    """The ids the socket's counter would hand out next are taken: by connections the peer opened with adjacent ids
+    (one to seven in a row, some with a gap) and by the socket's own pending connects.  The next connect walks past all
+    of them; the id it announces in its SYN is in use by nobody, and its SYN-ACK reaches it and nobody else."""
+    rng = random.Random(seed * 1000003 + idx * 73 + 53)
+    cid0 = rng.choice([10, 65526, 65534, 2 * rng.randrange(50, 30000)])
+    npend = rng.choice([0, 0, 1, 2])
+    k = [5, 6, 7, 1, 3, 4, 2][(idx // 7) % 7]
+    # (no gap inside the row: an incoming connection directly above a free id sends with that id + 1, which is also what
+    #  an outgoing connection on the free id sends with - the two are indistinguishable on the wire, a property of the
+    #  protocol's id scheme that a real peer resolves by ignoring the clashing SYN)
+    gap_at = None
+    st = []
+    for i in range(npend):
+        st.append({"op": "connect", "sock": "A", "to": "P", "ep": f"p{i}"})
+    st.append(sleep(1010))
+    base = (cid0 + 2 * npend) % 65536                 # where the counter stands now
+    taken = [(base + 2 * j + (2 if gap_at is not None and j >= gap_at else 0)) % 65536 for j in range(k)]
+    for j, c in enumerate(taken):
+        st += [{"op": "accept", "sock": "A", "ep": f"s{j}"}, peer("syn", cid=(c - 1) % 65536, seq=4000 + j, to="A"), sleep(1010)]
+    st += [{"op": "wait", "what": "accept", "timeout_us": 1 * SEC}]
+    free = base
+    while free in taken:
+        free = (free + 2) % 65536
+    synseq = 9000
+    st += [{"op": "connect", "sock": "A", "to": "P", "ep": "c"}, sleep(1010),
+           peer("raw", bytes=_hdr_bytes(2, free, 7000, synseq), to="A"), sleep(1010),
+           {"op": "wait", "what": "connect", "timeout_us": 1 * SEC}]
+    for i in range(npend):
+        st += [{"op": "abandon", "ep": f"p{i}"}, {"op": "drop", "ep": f"p{i}"}]
+    for j in range(k):
+        st += [{"op": "abandon", "ep": f"s{j}"}, {"op": "drop", "ep": f"s{j}"}]
+    st += [{"op": "abandon", "ep": "c"}, {"op": "drop", "ep": "c"}, sleep(20 * SEC)]
+    rand = [cid0] + [1000 * (i + 1) for i in range(npend)] + [100 * (j + 1) for j in range(k)] + [synseq, 9001, 9002]
+    socks = [sock("A", A_ADDR, rand=rand, link_mtu=576, max_retx=2, inactivity_ms=3000), sock("P", P_ADDR, raw=True)]
+    return script(f"{fam}/{idx}", seed * 103 + idx, socks, st, net={"latency_us": 1000},
+                  info={"family": fam, "variant": "id_walk", "k": k, "npend": npend, "backlog": backlog_from_source()}, mute=["poll"])
+
 def sockpeer_script(seed, idx, fam="sockpeer"):
     return [clash_pending_script, dup_syn_live_script, backlog_clash_script, abandon_hole_script,
-            accept_race_script][idx % 5](seed, idx, fam)
+            accept_race_script, accept_vs_syn_script, id_walk_script][idx % 7](seed, idx, fam)
 
 # ------------------------------------------------------------------ a delayed (not lost) MTU probe behind a lost segment (C01, C06)
 def probe_delay_script(seed, idx, fam="probe_delay"):
